@@ -46,6 +46,7 @@ type Contract struct {
 	Assumes  []*Clause // trusted facts assumed at entry of a verified func (listed as assumptions)
 	Modifies []*SX
 	Uses     []string
+	Needs    []string
 	Loops    map[int]*LoopSpec
 	Sites    []*SiteSpec
 	CrashInv []*Clause
@@ -73,6 +74,7 @@ type Decl struct {
 	Body  *SX
 	By    string
 	Uses  []string
+	Needs []string // lemmas that justify this axiom: proved whenever it is used, but not asserted
 }
 
 type Contracts struct {
@@ -208,6 +210,8 @@ func (c *Contracts) loadForm(file string, f *SX) error {
 				d.By = e.List[1].Atom
 			case "use":
 				d.Uses = atoms(e)[1:]
+			case "needs":
+				d.Needs = atoms(e)[1:]
 			case "always":
 				c.Always = append(c.Always, d.Name)
 			default:
@@ -289,6 +293,8 @@ func (c *Contracts) loadContract(file string, f *SX) error {
 			ct.Modifies = append(ct.Modifies, e.List[1:]...)
 		case "use":
 			ct.Uses = append(ct.Uses, atoms(e)[1:]...)
+		case "needs":
+			ct.Needs = append(ct.Needs, atoms(e)[1:]...)
 		case "nullable":
 			for _, a := range atoms(e)[1:] {
 				ct.Nullable[a] = true
